@@ -27,6 +27,9 @@ type c10Res struct {
 	Code    uint16
 	In, Out uint64
 	Err     string
+	// the bookkeeping fields of a result: no metric is defined in terms of them
+	Attack string `json:",omitempty"`
+	Seq    uint64 `json:",omitempty"`
 }
 
 type c10Case struct {
@@ -37,7 +40,7 @@ type c10Case struct {
 
 func (r c10Res) result() *vegeta.Result {
 	return &vegeta.Result{Timestamp: time.Unix(r.Epoch, r.TS), Latency: time.Duration(r.Latency), Code: r.Code,
-		BytesIn: r.In, BytesOut: r.Out, Error: r.Err}
+		BytesIn: r.In, BytesOut: r.Out, Error: r.Err, Attack: r.Attack, Seq: r.Seq}
 }
 
 type c10Ref struct {
@@ -52,6 +55,9 @@ type c10Ref struct {
 	errors                     map[string]bool
 	duration, wait             int64
 	rate, throughput, succFrac float64
+	// the time from the earliest instant to the end exceeds what a time.Duration holds (each of duration and wait
+	// fits): the denominator of the throughput cannot be formed, and no value is demanded of it
+	spanTooLong bool
 }
 
 func c10Reference(rs []c10Res) c10Ref {
@@ -91,7 +97,9 @@ func c10Reference(rs []c10Res) c10Ref {
 	}
 	if ref.duration > 0 {
 		ref.rate = float64(ref.n) / (float64(ref.duration) / 1e9)
-		ref.throughput = float64(ref.success) / (float64(ref.duration+ref.wait) / 1e9)
+		if ref.spanTooLong = ref.wait > math.MaxInt64-ref.duration; !ref.spanTooLong {
+			ref.throughput = float64(ref.success) / (float64(ref.duration+ref.wait) / 1e9)
+		}
 	}
 	return ref
 }
@@ -171,7 +179,7 @@ func c10Compare(m *vegeta.Metrics, ref c10Ref, what string) error {
 		if !relClose(m.Rate, ref.rate, 1e-12) {
 			return bad("rate", m.Rate, ref.rate)
 		}
-		if !relClose(m.Throughput, ref.throughput, 1e-12) {
+		if !ref.spanTooLong && !relClose(m.Throughput, ref.throughput, 1e-12) {
 			return bad("throughput", m.Throughput, ref.throughput)
 		}
 	} else {
@@ -302,7 +310,7 @@ func c10CompareJSON(m *vegeta.Metrics, ref c10Ref) error {
 	_ = json.Unmarshal(raw["rate"], &rate)
 	_ = json.Unmarshal(raw["throughput"], &thr)
 	_ = json.Unmarshal(raw["success"], &succ)
-	if ref.duration > 0 && (!relClose(rate, ref.rate, 1e-12) || !relClose(thr, ref.throughput, 1e-12)) {
+	if ref.duration > 0 && (!relClose(rate, ref.rate, 1e-12) || !ref.spanTooLong && !relClose(thr, ref.throughput, 1e-12)) {
 		return fmt.Errorf("JSON report rate/throughput = %v/%v, reference %v/%v", rate, thr, ref.rate, ref.throughput)
 	}
 	if !relClose(succ, ref.succFrac, 1e-12) {
@@ -446,6 +454,25 @@ func c10GenResults(t *rapid.T, n int) []c10Res {
 		r.In = rapid.Uint64Range(0, 1<<40).Draw(t, fmt.Sprintf("in%d", i))
 		r.Out = rapid.Uint64Range(0, 1<<40).Draw(t, fmt.Sprintf("out%d", i))
 	}
+	if n >= 2 && n <= 8 && rapid.IntRange(0, 7).Draw(t, "longest") == 0 {
+		// one result waits (nearly) as long as a time.Duration can say while the others started up to D earlier: the
+		// time from the earliest instant to the end may then exceed a time.Duration although duration and wait both fit
+		d := rapid.Int64Range(1, 1e15).Draw(t, "spread")
+		var others int64
+		for i := range rs {
+			rs[i].TS = -rapid.Int64Range(0, d).Draw(t, fmt.Sprintf("back%d", i))
+			rs[i].Latency = rapid.Int64Range(0, 1e6).Draw(t, fmt.Sprintf("short%d", i))
+			others += rs[i].Latency
+		}
+		k := rapid.IntRange(0, n-1).Draw(t, "longestat")
+		others -= rs[k].Latency
+		rs[k].TS = -rapid.Int64Range(0, d/2).Draw(t, "longestts")
+		rs[k].Latency = math.MaxInt64 - others - rapid.Int64Range(0, d).Draw(t, "slack")
+		for i := range rs {
+			rs[i].Epoch = 0
+		}
+		return rs
+	}
 	// where on the time line: mostly 1970..2100, sometimes across the ends of the int64 nanosecond clock
 	// (1677-09-21, 2262-04-11) or near the years 1 and 9999 (all of which every codec carries)
 	epoch := int64(0)
@@ -481,6 +508,29 @@ func TestC10Metrics(t *testing.T) {
 		}
 		c := c10Case{Results: c10GenResults(t, n)}
 		c.Order = rapid.Permutation(seqInts(n)).Draw(t, "order")
+		// attack names and sequence numbers: absent, numbered in the order of addition (what one attack's results look
+		// like in completion order, whatever their timestamps), numbered per name (several runs read round robin), or unrelated
+		switch seqKind := rapid.IntRange(0, 4).Draw(t, "seqkind"); seqKind {
+		case 0:
+		case 1, 2:
+			names := []string{"", "", "a"}[:seqKind+1]
+			next := map[string]uint64{}
+			for _, i := range c.Order {
+				r := &c.Results[i]
+				r.Attack = rapid.SampledFrom(names).Draw(t, fmt.Sprintf("attack%d", i))
+				r.Seq = next[r.Attack]
+				next[r.Attack]++
+			}
+		case 3:
+			for i := range c.Results {
+				c.Results[i].Attack, c.Results[i].Seq = "run", uint64(i)
+			}
+		default:
+			for i := range c.Results {
+				c.Results[i].Attack = rapid.SampledFrom([]string{"", "a", "b"}).Draw(t, fmt.Sprintf("attack%d", i))
+				c.Results[i].Seq = rapid.Uint64Range(0, 5).Draw(t, fmt.Sprintf("seq%d", i))
+			}
+		}
 		switch rapid.IntRange(0, 3).Draw(t, "closek") {
 		case 0:
 		case 1:
